@@ -38,6 +38,7 @@ func (r *Router) Terminate() error {
 	r.Lock()
 	services := r.services
 	r.services = make(map[uint32]ServiceReceiver)
+	vhook.Emit("router", r, "swap", "n", len(services))
 	r.Unlock()
 
 	var ret error
@@ -57,10 +58,12 @@ func (r *Router) Add(serviceID uint32, s ServiceReceiver) error {
 	r.Lock()
 	_, ok := r.services[serviceID]
 	if ok {
+		vhook.Emit("router", r, "add", "service", serviceID, "ok", false)
 		r.Unlock()
 		return fmt.Errorf("service id already used: %d", serviceID)
 	}
 	r.services[serviceID] = s
+	vhook.Emit("router", r, "add", "service", serviceID, "ok", true)
 	r.Unlock()
 	return nil
 }
@@ -71,8 +74,10 @@ func (r *Router) Remove(serviceID uint32) error {
 	defer r.Unlock()
 	if _, ok := r.services[serviceID]; ok {
 		delete(r.services, serviceID)
+		vhook.Emit("router", r, "remove", "service", serviceID, "ok", true)
 		return nil
 	}
+	vhook.Emit("router", r, "remove", "service", serviceID, "ok", false)
 	return fmt.Errorf("Router: cannot remove service %d", serviceID)
 }
 
@@ -81,7 +86,9 @@ func (r *Router) Remove(serviceID uint32) error {
 func (r *Router) Receive(m *net.Message, from Channel) error {
 	r.RLock()
 	s, ok := r.services[m.Header.Service]
+	vhook.Emit("router", r, vhook.Pick(ok, "route", "noroute"), "ep", vhook.ID(from.EndPoint()), "id", m.Header.ID, "service", m.Header.Service, "object", m.Header.Object)
 	r.RUnlock()
+	vhook.Gate("router.receive.unlocked", "ep", vhook.ID(from.EndPoint()), "id", m.Header.ID, "service", m.Header.Service, "object", m.Header.Object)
 	if ok {
 		return s.Receive(m, from)
 	}
